@@ -5,7 +5,7 @@ package manager
 //
 // Reads call sequences from $VERIF_CASES (JSON), runs each sequence on a real
 // Manager on temp dirs (three converters present, one tiny import so that
-// stream ids 0..3 exist) and writes one JSON line per event to $VERIF_OUT,
+// stream ids 0..12 exist) and writes one JSON line per event to $VERIF_OUT,
 // flushed per line, so that a panic of the service loop or a hang is
 // attributable to the call that was running.  Every API call runs under a
 // watchdog; after every call the tag table is dumped from inside the service
@@ -341,7 +341,8 @@ func verifC11WritePcap(dir string) (string, error) {
 	if err := w.WriteFileHeader(0xffff, layers.LinkTypeIPv4); err != nil {
 		return "", err
 	}
-	for i, payload := range []string{"foo", "bar", "baz", "qux"} {
+	// 13 streams, so that marks can carry ids that share leading digits (1 / 10 / 11 / 12)
+	for i, payload := range []string{"foo", "bar", "baz", "qux", "s4", "s5", "s6", "s7", "s8", "s9", "s10", "s11", "s12"} {
 		ip := layers.IPv4{Version: 4, TTL: 64, SrcIP: []byte{1, 2, 3, 4}, DstIP: []byte{4, 3, 2, 1}, Protocol: layers.IPProtocolUDP}
 		udp := layers.UDP{SrcPort: layers.UDPPort(i + 1), DstPort: 4321}
 		if err := udp.SetNetworkLayerForChecksum(&ip); err != nil {
@@ -428,7 +429,7 @@ func verifC11RunSeq(t *testing.T, seq verifC11Seq, emit func(verifC11Line)) {
 	deadline := time.Now().Add(verifC11Timeout)
 	for {
 		st := mgr.Status()
-		if st.ImportJobCount == 0 && st.StreamCount == 4 {
+		if st.ImportJobCount == 0 && st.StreamCount == 13 {
 			break
 		}
 		if time.Now().After(deadline) {
